@@ -15,6 +15,8 @@ from pyvc import arrays as A
 ap = argparse.ArgumentParser()
 ap.add_argument("--n", type=int, default=25)
 ap.add_argument("--seed", type=int, default=0)
+ap.add_argument("--only", default=None, help="regex on the qualified name")
+ap.add_argument("--json", action="store_true")
 a = ap.parse_args()
 rnd = random.Random(a.seed)
 
@@ -71,6 +73,9 @@ case("pyxel/models/charge_generation/photoelectrons.py::apply_qe", "pyxel.models
 case("pyxel/calibration/util.py::list_to_slice", "pyxel.calibration.util.list_to_slice",
      lambda: {"input_list": rnd.choice([None, [], [0, 5, 1, 4], [1, 2, 3, 4, 5, 6], [1, 2, 3]])})
 CASES = [c for c in CASES if c[1]]
+if a.only:
+    import re as _re
+    CASES = [c for c in CASES if _re.search(a.only, c[0])]
 
 NATIVE = r'''
 import json, sys, importlib, numpy as np, warnings
@@ -258,6 +263,8 @@ def main():
     for k, v in per.items():
         print(f"{k:40s} {v}")
     print("cross-check:", "all agree" if not bad else f"{bad} disagreements")
+    if a.json:
+        print("JSON " + json.dumps({"functions": per, "cases": len(jobs), "disagreements": bad, "seed": a.seed}))
     return 1 if bad else 0
 
 
